@@ -107,6 +107,46 @@ def qualname_of(fn):
     return '.'.join(reversed(parts))
 
 
+_RAW = {}
+
+
+def _raw_cls(repo, rel, cname):
+    """The class as written (callers are looked for in the text as it is,
+    not in the reviewed representatives of functions proved equivalent)."""
+    from ..source import Repo
+    raw = _RAW.get(repo.root)
+    if raw is None:
+        raw = _RAW[repo.root] = Repo(repo.root, canonical=False)
+    return raw.cls(rel, cname)
+
+
+def _only_called_by_mutators(rel, c, fn, _seen=None):
+    from .. import reviewed
+    if ('%s::%s.%s' % (rel, c.name, fn.name)) in reviewed.store():
+        return False
+    seen = _seen or set()
+    if fn.name in seen:
+        return True
+    seen = seen | {fn.name}
+    callers = []
+    for other in c.body:
+        if isinstance(other, ast.FunctionDef) and other.name != fn.name:
+            for x in ast.walk(other):
+                if isinstance(x, ast.Call) and dotted(x.func) == \
+                        'self.' + fn.name:
+                    callers.append(other)
+                    break
+    if not callers:
+        return False
+    for o in callers:
+        q = '%s.%s' % (c.name, o.name)
+        if o.name == '__init__' or (rel, q) in DECLARED_MUTATORS:
+            continue
+        if not _only_called_by_mutators(rel, c, o, seen):
+            return False
+    return True
+
+
 def run(chk, repo, tier):
     # ---- R15.1 inventory ---------------------------------------------------
     shared = {}     # (rel, scope, name) -> node
@@ -250,6 +290,10 @@ def run(chk, repo, tier):
                 continue
             q = '%s.%s' % (cname, fn.name)
             if (rel, q) in DECLARED_MUTATORS:
+                continue
+            if _only_called_by_mutators(rel, _raw_cls(repo, rel, cname), fn):
+                # a helper introduced after the review, called only from
+                # the declared mutators / the constructor: part of them
                 continue
             if any(isinstance(d, ast.Name) and d.id in ('classmethod',
                                                         'staticmethod')
